@@ -54,14 +54,14 @@ SPEC = {
              "are inside shots of up to 2.5 ms whose samples are reported after the first 'out of ammo'; each case twice. (c) cmd/vpandora subprocess with the `verif` gun (side-file counters before / after every Report), real "
              "phout file, const 1-20 krps, 2-4 instances; SIGINT / SIGTERM 0-1.6 s after 100-3000 reports completed (both sides of phout's "
              "1 s flush tick), or no signal and a 150-1200 ms run. (c') the same subprocess with 1-3 pools (own gun counters and phout file each, 1-8 instances, "
-             "const 1-20 krps or unlimited, GOMAXPROCS default/1/2) whose run ends by itself (schedule of 150-1200 ms, or a uri ammo file of 1-3000 entries "
+             "const 1-20 krps or unlimited, GOMAXPROCS default/1/2; in one case of four one pool's phout has no `destination` and writes to the standard output of the process, which the harness reads back, the log going to standard error) whose run ends by itself (schedule of 150-1200 ms, or a uri ammo file of 1-3000 entries "
              "with passes 1), or fails: the gun of one pool panics at its 1st-3000th shot after writing down how many reports of EVERY pool had "
              "completed, or one pool's ammo file is malformed after 1-3000 good entries; exit status 0 iff nothing failed, the panic value / decoding "
              "error in the log, every pool's output well-formed, gap-free per instance, lines = reports for a run that ended by itself and "
              ">= the counters written down before the panic (also for the pools that did not fail). Non-trivial = (a) >= 2 reporters or queue < reports, (a') every sweep, (a'') every case, (b) >= 2 reports "
              "due before the end instant and (>= 2 instances or queue < reports), (c) c0 >= 100, (c') >= 100 lines and (>= 2 pools or a failure); distinct = hash of the case."),
     "floors": {
-        "TestProcessEnd/end_panic": 0.3, "TestProcessEnd/end_none": 0.05, "TestProcessEnd/failure_with_several_pools": 0.3,
+        "TestProcessEnd/phout_to_stdout": 0.04, "TestProcessEnd/end_panic": 0.3, "TestProcessEnd/end_none": 0.05, "TestProcessEnd/failure_with_several_pools": 0.3,
         "TestProcessEnd/panic_other_pools_had_ge_100_completed_reports": 0.04,
         "TestPhoutHistory/reporters_ge_2": 0.5, "TestPhoutHistory/queue_lt_reports": 0.4, "TestPhoutHistory/ids_on": 0.22,
         "TestPhoutHistory/ids_off": 0.24, "TestPhoutHistory/negative_field": 0.5, "TestPhoutHistory/field_beyond_2^32": 0.5,
